@@ -153,6 +153,20 @@ Theorem C20_tasks_wiring :
     [1; Gen_ds_cifar100_defaults.cifar_default_crop_height; Gen_ds_cifar100_defaults.cifar_default_crop_width; 3].
 Proof. exact tasks_wiring. Qed.
 
+(* language models, per-example TRAINING loss: the translated loss (mask by `targets != pad`,
+   then a reduction over the row only -- the translator refuses any reduction across rows)
+   gives every row the loss it gets alone, whatever the other rows of the batch are; and a
+   padded position contributes nothing whatever its logits *)
+Theorem C20_lm_train_loss_row_independent : forall tail pad el (pre post : list (list Q * list Z)) r,
+  nth_error (lm_batch_loss tail pad el (pre ++ r :: post)) (length pre) = Some (lm_row_loss tail pad el r) /\
+  lm_batch_loss tail pad el [r] = [lm_row_loss tail pad el r] /\
+  length (lm_batch_loss tail pad el (pre ++ r :: post)) = length (pre ++ r :: post).
+Proof. exact lm_loss_row_independent. Qed.
+
+Theorem C20_lm_train_loss_ignores_pad_positions : forall pad l l' y ls ys, y = pad ->
+  mask_row pad (l :: ls) (y :: ys) = mask_row pad (l' :: ls) (y :: ys).
+Proof. exact mask_row_ignores_pad. Qed.
+
 (* non-vacuity: the docstring example of preprocess_client; crops; a Pythagorean standardisation
    instance (3x1 crop: 9 values, sqrt 9 = 3; low contrast: std 0 <= 1/3) *)
 Example C20_example :
@@ -162,7 +176,8 @@ Example C20_example :
   center_window 24 24 = Some ((4, 28), (4, 28)) /\ center_window 31 1 = Some ((0, 31), (15, 16)) /\
   random_window 24 30 100 7 = Some ((1, 25), (1, 31)) /\
   EM.domain_id [102; 50; 53; 57; 57; 95; 48; 49] = Some 0 /\ EM.domain_id [102; 50; 54; 48; 48; 95; 48; 49] = Some 1 /\
-  (let adj := CF.std_adjusted 1%Q Qdiv Qmax (fun _ => 3%Q) 0%Q 9%Q in (adj * adj == Qmax 0 (1 / 9))%Q).
+  (let adj := CF.std_adjusted 1%Q Qdiv Qmax (fun _ => 3%Q) 0%Q 9%Q in (adj * adj == Qmax 0 (1 / 9))%Q) /\
+  sh_batch_loss None [([1%Q; 2%Q; 3%Q; 7%Q], [5; 6; 7; 0]); ([4%Q; 4%Q; 4%Q; 4%Q], [5; 5; 5; 5])] = [(6 # 4)%Q; (16 # 4)%Q].
 Proof. vm_compute. repeat split. Qed.
 
 Print Assumptions C20_shakespeare_lossless.
@@ -183,3 +198,5 @@ Print Assumptions C20_shakespeare_ids_agree.
 Print Assumptions C20_stackoverflow_ids_agree.
 Print Assumptions C20_stackoverflow_ids_agree_any_vocab.
 Print Assumptions C20_tasks_wiring.
+Print Assumptions C20_lm_train_loss_row_independent.
+Print Assumptions C20_lm_train_loss_ignores_pad_positions.
